@@ -2414,9 +2414,40 @@ def _move_after_scope(
     return additions, removals
 
 
+def _can_move_before_tests(
+    scope: ast.If, nodes: Sequence[ast.AST], safe_callables: Collection[str]
+) -> bool:
+    """Check that nodes, which come first in branches of scope, can run before its tests instead.
+
+    The nodes must not change anything that the tests look at.
+    """
+    tests = [child.test for child in core.walk(scope, ast.If)]
+    names_in_tests = {name.id for test in tests for name in core.walk(test, ast.Name)}
+    for node in nodes:
+        # Names that are assigned or deleted, that have an attribute or item assigned or deleted,
+        # or that are involved in a call that may change them.
+        changed_names = {
+            name.id
+            for child in core.walk(node, (ast.Name, ast.Attribute, ast.Subscript))
+            if isinstance(child.ctx, (ast.Store, ast.Del))
+            for name in core.walk(child, ast.Name)
+        }
+        changed_names.update(
+            name.id
+            for call in core.walk(node, ast.Call)
+            if core.has_side_effect(call, safe_callables)
+            for name in core.walk(call, ast.Name)
+        )
+        if changed_names & names_in_tests:
+            return False
+
+    return True
+
+
 @processing.fix
 def breakout_common_code_in_ifs(source: str) -> str:
     root = core.parse(source)
+    safe_callables = parsing.safe_callable_names(root)
     transaction = 0
     for node, body, orelse in _iter_explicit_if_elses(root):
         if core.get_code(node, source).startswith("elif"):
@@ -2431,7 +2462,11 @@ def breakout_common_code_in_ifs(source: str) -> str:
         start_branches = [body[0], orelse[0]]
         end_branches = [body[-1], orelse[-1]]
 
-        if not has_namedexpr and _is_same_code(*start_branches):
+        if (
+            not has_namedexpr
+            and _is_same_code(*start_branches)
+            and _can_move_before_tests(node, start_branches, safe_callables)
+        ):
             additions, removals = _move_before_scope(node, start_branches)
         elif _is_same_code(*end_branches):
             additions, removals = _move_after_scope(node, end_branches)
@@ -2442,7 +2477,11 @@ def breakout_common_code_in_ifs(source: str) -> str:
         except (ValueError, IndexError):
             pass
         else:
-            if not has_namedexpr and _is_same_code(*start_branches):
+            if (
+                not has_namedexpr
+                and _is_same_code(*start_branches)
+                and _can_move_before_tests(node, start_branches, safe_callables)
+            ):
                 additions, removals = _move_before_scope(node, start_branches)
             elif _is_same_code(*end_branches):
                 additions, removals = _move_after_scope(node, end_branches)
@@ -2475,7 +2514,11 @@ def breakout_common_code_in_ifs(source: str) -> str:
         additions = set()
         has_namedexpr = any(core.walk(node.test, ast.NamedExpr))
         start_branches = [body[0], orelse[0]]
-        if not has_namedexpr and _is_same_code(*start_branches):
+        if (
+            not has_namedexpr
+            and _is_same_code(*start_branches)
+            and _can_move_before_tests(node, start_branches, safe_callables)
+        ):
             additions, removals = _move_before_scope(node, start_branches)
 
         try:
@@ -2483,7 +2526,11 @@ def breakout_common_code_in_ifs(source: str) -> str:
         except (ValueError, IndexError):
             pass
         else:
-            if not has_namedexpr and _is_same_code(*start_branches):
+            if (
+                not has_namedexpr
+                and _is_same_code(*start_branches)
+                and _can_move_before_tests(node, start_branches, safe_callables)
+            ):
                 additions, removals = _move_before_scope(node, start_branches)
 
         if core.match_template(list(additions), [ast.Pass]):
